@@ -1403,7 +1403,7 @@ Fixpoint read_iter (fuel : nat) (o : entry_opts) (t : ty) (s : live) (rest : lis
       if ev_scalar_nullish e then
         match live_next s' rest' with
         | Yield _ s2 r2 | Eos s2 r2 => read_iter f o t s2 r2
-        | Fail _ s2 r2 => read_iter f o t s2 r2            (* `let _ = self.src.next()` *)
+        | Fail e' _ _ => inl [IErr e']                     (* an error here ends the iteration *)
         end
       else
         let failed (e' : err) :=
